@@ -891,8 +891,15 @@ class Gen:
 
     def op_fresh(self):
         """x = cb.fresh_var_name(prefix); x <- expr  (the name is only known at build time)"""
-        prefix = self.choice(["temp", "temp", "tmp", "x", "<cond>", "acc"])
+        prefix = self.choice(["temp", "temp", "tmp", "x", "<cond>", "acc", "temp_0", "x_0", "tmp_0", "acc_0"])
         self.features.add("fresh")
+        if self.chance(35):
+            # names requested ahead of their use (["reserve", prefix] makes no statement): a later request with a
+            # prefix that looks like an earlier answer ("x" twice, then "x_0") must still get a new name
+            self.features.add("fresh_reserved")
+            base = self.choice(["temp", "x", "tmp", "acc"])
+            seq = [base, base, base + "_0"] if self.chance(60) else [base + "_0", base, base]
+            return [["reserve", pfx] for pfx in seq] + [["fresh", prefix, self.real_expr(1)]]
         return [["fresh", prefix, self.real_expr(1)]]
 
     def op_utemp_in_loop(self, depth):
